@@ -10,6 +10,7 @@ import Lumina.Gen.C07
 import Lumina.Proofs.BefpSound
 import Lumina.Proofs.BefpComplete
 import Lumina.Spec.C07
+import Lumina.Model.Sample
 
 namespace Lumina.Props.C07
 open Lumina.Util Lumina.Model.Nmt Lumina.Model.Eds Lumina.Model.EdsCode Lumina.Model.Befp
@@ -146,5 +147,36 @@ theorem befp_complete {H : HashFn} (hk : HashOK H) (C : Codec) {ver : Nat} {X : 
   have c7 : (Flags.fixed.capGuard && decide (e.width > LEOPARD_ORDER)) = false := by
     simp [LEOPARD_ORDER]; omega
   simp only [c1, c2, c3, c4, c5, c6, c7, ↓reduceIte, Bool.false_eq_true, hvs, hce]
+
+/-! ### the defect of the unchanged code, as a concrete witness
+
+  A 2 × 2 square built by `from_ods` from one share with the repetition code (for `k = 1` Reed–Solomon IS the repetition
+  code) and a toy hash; the fraud proof is the HONEST one for the lower row: both shares of row 1, each at its own position
+  with the inclusion proof `Sample::new` builds.  The code before the fixes "proves" fraud against this honest block
+  (the first rebuilt leaf is filed under the data namespace the parity bytes happen to spell); the fixed code rejects. -/
+
+def toyH : HashFn := fun b => (b ++ List.replicate 32 0).take 32
+def cexShare : Bytes := List.replicate 29 0 ++ List.replicate 483 7
+def cexEds : Eds := Eds.ofRaw 2 [cexShare, cexShare, cexShare, cexShare]
+def cexCodec : Codec := ⟨fun l => l, fun l => l⟩
+def cexShareAt (i : Nat) : Option ShareWithProof :=
+  match Lumina.Model.Sample.new toyH cexEds 1 i .row with
+  | .ok s => some ⟨s.share.ns, s.share.data, s.proof, .row⟩
+  | .error _ => none
+def cexProof : Befp := ⟨5, [cexShareAt 0, cexShareAt 1], 1, .row⟩
+def isOk {ε α} : Except ε α → Bool
+  | .ok _ => true
+  | .error _ => false
+def cexWitness : Bool :=
+  match Dah.ofEds toyH cexEds with
+  | .ok dah =>
+    isOk (validateUnfixed toyH cexCodec cexProof 5 dah) && !isOk (validate toyH cexCodec cexProof 5 dah) &&
+    (match fromOds cexCodec.enc 1 [cexShare] with | .ok e => e == cexEds | .error _ => false)
+  | .error _ => false
+
+set_option maxRecDepth 100000 in
+/-- before the fixes, an honest block (`from_ods`) + the honest proof for its lower row ⇒ `validate = Ok(())`;
+    after the fixes the same proof is rejected -/
+theorem befp_unfixed_lower_axis_counterexample : cexWitness = true := by decide +kernel
 
 end Lumina.Props.C07
